@@ -137,6 +137,9 @@ var ops = map[string]func(*proto.Op, *proto.Res) error{}
 var (
 	imgMu        sync.Mutex
 	timerFlushes int64 // flushes seen so far (guarded by imgMu)
+	// an image ordered for the end of the next flush (timer-images mode)
+	pendMu        sync.Mutex
+	pendingImgDir string
 )
 
 func init() {
@@ -151,7 +154,17 @@ func init() {
 			// never taken while a flush is writing (that state is C04's
 			// business): the flush brackets and the image op share one mutex
 			storage.VerifFlushBegin = func() { imgMu.Lock(); timerFlushes++ }
-			storage.VerifFlushEnd = func() { imgMu.Unlock() }
+			storage.VerifFlushEnd = func() {
+				// (the store lock is still held: the files are what this
+				// flush made of them)
+				pendMu.Lock()
+				if pendingImgDir != "" {
+					copyTree("data", pendingImgDir)
+					pendingImgDir = ""
+				}
+				pendMu.Unlock()
+				imgMu.Unlock()
+			}
 		}
 		return nil
 	}
@@ -189,7 +202,16 @@ func init() {
 	ops["session"] = func(op *proto.Op, res *proto.Res) error { sess = &engine.Session{}; return nil }
 	ops["sql"] = func(op *proto.Op, res *proto.Res) error { return sess.ExecQuery(string(op.SQL)) }
 	ops["query"] = opQuery
-	ops["stmt"] = opStmt
+	ops["stmt"] = func(op *proto.Op, res *proto.Res) error {
+		err := opStmt(op, res)
+		if op.Dir != "" && err == nil {
+			// order an image for the end of the first flush from now on
+			pendMu.Lock()
+			pendingImgDir = op.Dir
+			pendMu.Unlock()
+		}
+		return err
+	}
 	ops["flush"] = func(op *proto.Op, res *proto.Res) error {
 		if sess.RelationService == nil {
 			return fmt.Errorf("DRIVER: no relation service")
@@ -219,6 +241,24 @@ func init() {
 		return nil
 	}
 	ops["image"] = func(op *proto.Op, res *proto.Res) error {
+		if op.M > 0 {
+			// the image was ordered when the statement before it returned
+			// (Dir on the stmt op): it is taken by the flusher itself, at the
+			// end of the first flush after that statement. Wait for it (at
+			// most 600 ms); if no flush came, take the image now
+			for i := 0; i < 600; i++ {
+				pendMu.Lock()
+				done := pendingImgDir == ""
+				pendMu.Unlock()
+				if done {
+					return nil
+				}
+				time.Sleep(time.Millisecond)
+			}
+			pendMu.Lock()
+			pendingImgDir = ""
+			pendMu.Unlock()
+		}
 		imgMu.Lock()
 		defer imgMu.Unlock()
 		res.N = timerFlushes
